@@ -338,6 +338,72 @@ fn run_case(case: &Val) -> Val {
                 .collect();
             Val::L(vec![Val::L(canon_ops(sink.ops)), Val::L(probe)])
         }
+        // [10, ctx, router_id, cid, attrs]: the receive path for one reach UPDATE.
+        // run_select skips the message when is_as_loop (that `continue` is glue
+        // replicated here); otherwise PeerSession::rx_update runs for real and the
+        // Loc-RIB is read back.
+        10 => {
+            let ctx = ctx_of(case.at(1));
+            let rid = case.at(2).u32();
+            let cid = cid_of(case.at(3));
+            let attrs = attrs_of(case.at(4));
+            if is_as_loop(&attrs, ctx.local_asn, ctx.confederation_id) {
+                return Val::L(vec![]);
+            }
+            let rt = tokio::runtime::Builder::new_current_thread()
+                .enable_all()
+                .build()
+                .unwrap();
+            rt.block_on(async move {
+                let tables: TableHandle = Arc::new(crate::table_manager::TableManager::new(1));
+                let fsm = crate::fsm::PeerFsm::new(rid, ctx.local_asn, vec![], 90, 0, FnvHashMap::default());
+                let conn_arbiter = Arc::new(std::sync::Mutex::new(ConnArbiter::new(fsm)));
+                let context = Arc::new(std::sync::Mutex::new(PeerContext {
+                    conn_arbiter,
+                    active_connect_cancel_tx: None,
+                    active_connect_join_handle: None,
+                    gr_state: crate::gr::GrState::new(),
+                    gr_restart_timer: None,
+                    llgr_family_timers: FnvHashMap::default(),
+                    rtc_state: crate::rtc::RtcState::new(),
+                    rtc_eor_timer: None,
+                }));
+                let remote: IpAddr = "10.0.0.2".parse().unwrap();
+                let mut s = PeerSession::new_for_test(remote, context, tables.clone());
+                let role = ctx.role;
+                let rasn = if matches!(role, PeerRole::Ibgp | PeerRole::IbgpRrClient) {
+                    ctx.local_asn
+                } else {
+                    65002
+                };
+                s.source.insert(
+                    Family::IPV4,
+                    Arc::new(table::Source::new(
+                        remote,
+                        IpAddr::V4(Ipv4Addr::new(127, 0, 0, 1)),
+                        rasn,
+                        ctx.local_asn,
+                        Ipv4Addr::new(10, 0, 0, 2),
+                        role,
+                    )),
+                );
+                s.export_ctx = ctx;
+                s.local_router_id = Ipv4Addr::from(rid);
+                s.cluster_id = cid;
+                let reach = Some(bgp::ReachNlri {
+                    family: Family::IPV4,
+                    entries: vec![packet::PathNlri::new("10.9.0.0/24".parse().unwrap())],
+                    nexthop: Some(bgp::Nexthop::V4(Ipv4Addr::new(10, 0, 0, 2))),
+                });
+                let exceeded = s.rx_update(reach, None, attrs, 0u32).await;
+                assert!(!exceeded);
+                let changes = tables.collect_loc_rib_paths(Family::IPV4);
+                match changes.first().and_then(|c| c.current_paths.first()) {
+                    None => Val::L(vec![]),
+                    Some(p) => Val::L(vec![attrs_val(&p.attr)]),
+                }
+            })
+        }
         t => panic!("verif: unknown case tag {}", t),
     }
 }
